@@ -1,10 +1,14 @@
-(** C16 Serialisation round trip.  serde / serde_json and the derive output are trusted, not
-    modelled: the model's round trip is the identity on states, and the correspondence check shows
-    the implementation's round trip is observationally the identity too (same reads, same future
-    indices).  What is proved here is the consequence the property cares about: ANY state that is
-    observationally equivalent to the original (in particular an identical one) reads identically
-    at every issued index and answers every further history identically. *)
-From FC Require Import Base.Res Region.Region Region.History.
+(** C16 Serialisation round trip.  serde / serde_json are trusted, not modelled.  The model carries the
+    SERIALISED FORM of every serde-enabled region, index container and FlatStack as the name-free
+    tree the derives emit (Serde/Ser.v: one definition per derive, fields in declaration order);
+    the check compares that tree, computed from the model state, with the tree the crate's own
+    [Serialize] impls emit, before and after the round trip: equality of the whole internal state.
+    Proved here: (1) the tree determines the model state ([SerInj], per combinator and for every
+    catalogue entry), so a deserialised value with the same tree is represented by the same model
+    state; (2) ANY state observationally equivalent to the original (in particular an identical
+    one) reads identically at every issued index and answers every further history identically. *)
+From FC Require Import Base.Res Base.UVal Index.IC Region.Region Region.History Serde.Ser.
+From FC Require Import Model.Wire Model.Catalogue Model.CatalogueOk.
 
 Theorem C16_equal_reads : forall (R : Region) (SP : RSpec R), RegionOK R ->
   forall s t log, inv s -> inv t -> sim s t -> log_ok s log -> log_ok t log.
@@ -15,3 +19,21 @@ Theorem C16_equal_futures : forall (R : Region) (SP : RSpec R), RegionOK R ->
   run ops s log tr = Ok (s', log', tr') ->
   exists t', run ops t log tr = Ok (t', log', tr') /\ sim s' t' /\ inv s' /\ inv t'.
 Proof. exact (@run_sim). Qed.
+
+(** The serialised form leaves nothing out: it determines the state and the index, for every
+    combinator (shown for the three with bookkeeping beyond their children) ... *)
+Theorem C16_collapse_form : forall (R : Region) veq (S : RSer R), SerInj S -> SerInj (collapse_ser veq S).
+Proof. exact (@collapse_ser_inj). Qed.
+Theorem C16_consec_form : forall (R : Region) (PI : Consec.PairIdx R) (O : IC nat) (OS : ICSer O), ICSerInj O ->
+  forall chk (S : RSer R), SerInj S -> SerInj (@consec_ser R PI O OS chk S).
+Proof. exact (@consec_ser_inj). Qed.
+Theorem C16_index_optimized_form : ICSerInj Stride.index_optimized.
+Proof. exact index_optimized_ser_inj. Qed.
+(** ... and for EVERY region of the catalogue that derives Serialize (the [entry] function the
+    correspondence runs), including the stride state, the u32/u64 split, the deduplication memory and
+    the offsets: two states with the same serialised tree are the same state. *)
+Theorem C16_catalogue_form : forall chk szs n e, entry chk szs n = Some e ->
+  forall S, m_ser e = Some S -> injective (r_ser S) /\ injective (r_iser S).
+Proof.
+  intros chk szs n e He S HS. destruct (@catalogue_ser_inj chk szs n e He S HS) as [H1 H2]. split; assumption.
+Qed.
